@@ -661,7 +661,8 @@ def tables_stage(ctx, cpp, ml):
         n += len(ta) - 2
         if a != b:
             idx = [i for i, (x, y) in enumerate(zip(ta, tb)) if x != y]
-            problems.append({"table": ta[0], "row": ta[1], "first_diff_col": idx[0] - 2 if idx else None, "cpp": ta[idx[0]] if idx else a, "model": tb[idx[0]] if idx else b})
+            problems.append({"table": ta[0], "row": ta[1] if len(ta) > 1 else "", "first_diff_col": idx[0] - 2 if idx else None,
+                             "cpp": ta[idx[0]] if idx else a[:200], "model": tb[idx[0]] if idx else b[:200]})
     ctx.count("table_entries_step_between_direction", n)
     # bit scans / popcount: all single bits, all prefixes, random words
     rng = ctx.rng
